@@ -318,8 +318,7 @@ pub fn run(ctx: &Ctx) -> i32 {
     part
   });
   // out-of-range hash on the checked entry points
-  for d in [0u8, 3, 12, 28] {
-    let h = n_hash(d);
+  for (d, h) in [0u8, 3, 12, 28].iter().flat_map(|&d| out_of_range_hashes(d).into_iter().map(move |h| (d, h))) {
     total.stratum("out-of-range", 1, 3);
     let layer = nested::get_or_create(d);
     for (api, ok) in [
